@@ -198,7 +198,7 @@ class Batch:
             doc = o["doc"]
             path = os.path.join(self.home, "replays", f"{self.prop}-{doc['seed']}.json")
             with open(path, "w") as f:
-                json.dump(doc, f, indent=1, sort_keys=True)
+                json.dump(doc, f, indent=1)  # key order is data (e.g. keyword order): never sort
                 f.write("\n")
             ok, msg = replay_fresh(self.home, self.prop, path)
             if not ok:
